@@ -81,6 +81,9 @@ CONTENT_VARIANTS = {
         ('unencodable-surrogate-16', {'text': '\udc00b', 'encoding':
                                       'utf-16'}, REJECT),
         ('codec-unknown', {'encoding': 'nope-8'}, REJECT),
+        ('codec-rot13', {'encoding': 'rot13', 'indent': 0}, REJECT),
+        ('codec-rot13-default-indent', {'encoding': 'rot_13'}, REJECT),
+        ('codec-hex', {'encoding': 'hex', 'indent': 0}, REJECT),
         ('unencodable-low-surrogate-8', {'text': 'a\udc80b\n', 'encoding':
                                          'utf-8'}, REJECT),
         ('unencodable-low-surrogate-a', {'text': '\udcff', 'encoding':
@@ -106,6 +109,8 @@ CONTENT_VARIANTS = {
         ('format-empty', {'meta_format': ''}, REJECT),
         ('format-none', {'meta_format': None}, REJECT),
         ('codec-unknown', {'encoding': 'nope-8'}, REJECT),
+        ('codec-rot13', {'encoding': 'rot13'}, REJECT),
+        ('codec-base64', {'encoding': 'base64'}, REJECT),
         ('meta-nan', {'metadata': {'x': {'$float': 'nan'}}}, MAY),
         ('meta-unserialisable', {'metadata': {'x': {'$object': 1}}}, MAY),
         ('meta-tuple-key', {'metadata': {'x': {'$set': [1]}}}, MAY),
@@ -225,6 +230,9 @@ def generate(rng, tier, cls):
 
     if rng.chance(0.1):
         spec['shadow'] = rng.below(50)
+
+    if rng.chance(0.1):
+        spec['hostile_handler'] = True
 
     faults = []
 
